@@ -83,8 +83,8 @@ type Sched struct {
 	now      int64 // virtual nanoseconds since base
 	trace    bool
 	tlog     []string
-	// PointFilter, when set, lets a harness silence scheduling points by kind.
 	quietAtomics bool
+	delay        bool // delay-bounding cost model (cost = position in the round-robin order)
 }
 
 // Base is the virtual epoch.
@@ -113,6 +113,11 @@ type Options struct {
 	Horizon      int
 	Trace        bool
 	QuietAtomics bool
+	// Delay selects delay bounding (Emmi/Qadeer/Rakamaric 2011): the default scheduler is
+	// deterministic round-robin and taking the i-th alternative costs i, also when the
+	// running thread is blocked. Default (false) is preemption bounding: only switching
+	// away from a runnable thread costs.
+	Delay bool
 }
 
 // Run executes body as thread 0 under a fresh scheduler and returns the outcome.
@@ -121,7 +126,7 @@ func Run(opts Options, body func()) *Outcome {
 		panic("vsched: nested Run")
 	}
 	s := &Sched{prefix: opts.Prefix, endCh: make(chan struct{}, 1), out: &Outcome{}, horizon: opts.Horizon,
-		closed: map[uintptr]bool{}, trace: opts.Trace, quietAtomics: opts.QuietAtomics}
+		closed: map[uintptr]bool{}, trace: opts.Trace, quietAtomics: opts.QuietAtomics, delay: opts.Delay}
 	if s.horizon <= 0 {
 		s.horizon = 20000
 	}
@@ -367,7 +372,14 @@ func (s *Sched) pick() *thread {
 				}
 			}
 		}
-		for _, t := range s.threads {
+		// the other threads in round-robin order starting after the running thread
+		nth := len(s.threads)
+		startID := 0
+		if cur != nil {
+			startID = cur.id + 1
+		}
+		for k := 0; k < nth; k++ {
+			t := s.threads[(startID+k)%nth]
 			if t == cur || t.done || t.op == nil {
 				continue
 			}
@@ -379,6 +391,11 @@ func (s *Sched) pick() *thread {
 				for a := 0; a < n; a++ {
 					ents = append(ents, entry{t: t, alt: a, cost: c})
 				}
+			}
+		}
+		if s.delay {
+			for i := range ents {
+				ents[i].cost = i
 			}
 		}
 		tm := s.earliestTimer()
